@@ -409,26 +409,26 @@ class ActionLink(Action):
     def instantiation_order(parser):
         actions = get_link_actions(parser, "instantiate")
         if actions:
-            targets = set()
             graph = DirectedGraph()
 
             # Add instantiation links as edges
             for action in actions:
                 target = re.sub(r"\.init_args$", "", split_key_leaf(action.target[0])[0])
                 for _, source_action in action.source:
+                    if target.startswith(source_action.dest + ".") and is_nested_instantiation_link(action):
+                        continue  # objects nested in a single subclass action are ordered by its own parser
                     graph.add_edge(source_action.dest, target)
-                targets.add(target)
 
-            # Add instantiation target prefixes as edges
-            targets = sorted(targets, key=lambda x: len(split_key(x)))
-            seen_targets = {targets[0]}
-            for target in targets[1:]:
-                parts = [x.replace("|", ".") for x in target.replace("init_args.", "init_args|").split(".")]
+            # Add nesting as edges: a source or target nested in another source or target is instantiated first
+            nodes = sorted(graph.nodes, key=lambda x: len(split_key(x)))
+            seen_nodes = set(nodes[:1])
+            for node in nodes[1:]:
+                parts = [x.replace("|", ".") for x in node.replace("init_args.", "init_args|").split(".")]
                 for num in range(len(parts) - 1):
-                    target_prefix = ".".join(parts[: num + 1])
-                    if target_prefix in seen_targets:
-                        graph.add_edge(target, target_prefix)
-                seen_targets.add(target)
+                    node_prefix = ".".join(parts[: num + 1])
+                    if node_prefix in seen_nodes:
+                        graph.add_edge(node, node_prefix)
+                seen_nodes.add(node)
 
             return graph.get_topological_order()
         return []
